@@ -170,3 +170,71 @@ theorem pgdbInit_tracePreserving (d : Nat) (hd : (d : K) ≠ 0) {a c : Nat} (ha 
     mul_inv_cancel₀ hd, one_mul]
 
 end LW.Tomo
+
+namespace LW.Tomo
+
+variable {K : Type} [Field K] [StarRing K] [DecidableEq K]
+
+set_option linter.unusedSectionVars false
+
+/-- what `_tp_proj` removes, on the block grid: `kron((ptrace(A) − I)/d, I_d)` -/
+theorem get_removed_tp (d : Nat) (A : M K) (hA : A.n = d * d) {a b c e : Nat}
+    (ha : a < d) (hb : b < d) (hc : c < d) (he : e < d) :
+    (msub A (tpProj d A)).get (a * d + b) (c * d + e)
+      = (d : K)⁻¹ * ((partialTrace d A).get a c - (if a = c then 1 else 0)) * (if b = e then 1 else 0) := by
+  have h1 : a * d + b < A.n := hA ▸ idx_lt ha hb
+  have h2 : c * d + e < A.n := hA ▸ idx_lt hc he
+  rw [get_msub _ _ h1 h2, get_tpProj d A hA ha hb hc he]
+  ring
+
+/-- **`_tp_proj` is the ORTHOGONAL projection onto the trace-preserving matrices**: what it removes
+is Frobenius-orthogonal to `T − _tp_proj(A)` for every trace-preserving `T`; hence
+`‖A − T‖² = ‖A − tp(A)‖² + ‖tp(A) − T‖²` and `_tp_proj(A)` is the nearest trace-preserving matrix. -/
+theorem tpProj_orthogonal (d : Nat) (A T : M K) (hA : A.n = d * d) (hT : T.n = d * d) (hd : (d : K) ≠ 0)
+    (hTP : ∀ a c, a < d → c < d → (partialTrace d T).get a c = if a = c then 1 else 0) :
+    ∑ r ∈ Finset.range (d * d), ∑ k ∈ Finset.range (d * d),
+        star ((msub A (tpProj d A)).get r k) * (msub T (tpProj d A)).get r k = 0 := by
+  rw [sum_range_mul]
+  apply Finset.sum_eq_zero
+  intro a ha
+  have ha' := Finset.mem_range.mp ha
+  -- reorder: for fixed a, sum over b then (c, e)
+  have step : ∀ b ∈ Finset.range d,
+      ∑ k ∈ Finset.range (d * d),
+          star ((msub A (tpProj d A)).get (a * d + b) k) * (msub T (tpProj d A)).get (a * d + b) k
+        = ∑ c ∈ Finset.range d,
+            star ((d : K)⁻¹ * ((partialTrace d A).get a c - (if a = c then 1 else 0)))
+              * (msub T (tpProj d A)).get (a * d + b) (c * d + b) := by
+    intro b hb
+    have hb' := Finset.mem_range.mp hb
+    rw [sum_range_mul]
+    refine Finset.sum_congr rfl fun c hc => ?_
+    have hc' := Finset.mem_range.mp hc
+    have : ∀ e ∈ Finset.range d,
+        star ((msub A (tpProj d A)).get (a * d + b) (c * d + e)) * (msub T (tpProj d A)).get (a * d + b) (c * d + e)
+          = if e = b then star ((d : K)⁻¹ * ((partialTrace d A).get a c - (if a = c then 1 else 0)))
+              * (msub T (tpProj d A)).get (a * d + b) (c * d + b) else 0 := by
+      intro e he
+      have he' := Finset.mem_range.mp he
+      rw [get_removed_tp d A hA ha' hb' hc' he']
+      by_cases h : e = b
+      · subst h; simp
+      · have h' : ¬ b = e := fun x => h x.symm
+        simp [h, h']
+    rw [Finset.sum_congr rfl this, Finset.sum_ite_eq', if_pos hb]
+  rw [Finset.sum_congr rfl step, Finset.sum_comm]
+  apply Finset.sum_eq_zero
+  intro c hc
+  have hc' := Finset.mem_range.mp hc
+  rw [← Finset.mul_sum]
+  have hz : ∑ b ∈ Finset.range d, (msub T (tpProj d A)).get (a * d + b) (c * d + b) = 0 := by
+    have h1 : ∀ b ∈ Finset.range d, (msub T (tpProj d A)).get (a * d + b) (c * d + b)
+        = T.get (a * d + b) (c * d + b) - (tpProj d A).get (a * d + b) (c * d + b) := by
+      intro b hb
+      have hb' := Finset.mem_range.mp hb
+      exact get_msub _ _ (hT ▸ idx_lt ha' hb') (hT ▸ idx_lt hc' hb')
+    rw [Finset.sum_congr rfl h1, Finset.sum_sub_distrib, ← get_partialTrace _ _ ha' hc',
+      ← get_partialTrace _ _ ha' hc', hTP a c ha' hc', tpProj_tracePreserving d A hA hd ha' hc', sub_self]
+  rw [hz, mul_zero]
+
+end LW.Tomo
